@@ -166,8 +166,12 @@ ElectionDue(now) ==
 
 SwapProposer(vs, idx) == [vs EXCEPT ![idx + 1] = proposer]
 
-EndBlock(now, idx) ==
-  IF ~ElectionDue(now) THEN UNCHANGED rvars
+(* The result of EndBlocker as a record (so that the trace specification can compare it field by field). *)
+Same == [proposer |-> proposer, voters |-> voters, epoch |-> epoch, lastElected |-> lastElected, accepted |-> accepted,
+         rec |-> rec, onQ |-> onQ, offQ |-> offQ, halted |-> halted]
+
+EndResult(now, idx) ==
+  IF ~ElectionDue(now) THEN Same
   ELSE
     LET on  == onQ # << >>
         off == offQ # << >>
@@ -177,30 +181,29 @@ EndBlock(now, idx) ==
         recOff == [m \in Members |-> IF off /\ m \in offSet THEN NoRec ELSE recOn[m]]
         removedP == off /\ proposer \in offSet
         vs2 == IF off THEN SeqMinus(vs1, offSet) ELSE vs1
+        base == [Same EXCEPT !.epoch = epoch + 1, !.lastElected = now, !.rec = recOff,
+                             !.onQ = IF on \/ off THEN << >> ELSE onQ, !.offQ = IF on \/ off THEN << >> ELSE offQ]
     IN
     IF removedP /\ vs2 = << >>
-      THEN /\ halted' = TRUE            \* "delete too many voters": EndBlocker fails
-           /\ UNCHANGED << proposer, voters, epoch, lastElected, accepted, rec, onQ, offQ, seq, randao, pubkeys, accounts >>
-    ELSE
-      /\ epoch' = epoch + 1
-      /\ lastElected' = now
-      /\ rec' = recOff
-      /\ onQ' = IF on \/ off THEN << >> ELSE onQ
-      /\ offQ' = IF on \/ off THEN << >> ELSE offQ
-      /\ UNCHANGED << seq, randao, pubkeys, accounts, halted >>
-      /\ IF removedP
-           THEN /\ proposer' = vs2[1]
-                /\ voters' = Tail(vs2)
-                /\ accepted' = FALSE
-         ELSE IF Len(vs2) = 0
-           THEN /\ proposer' = proposer
-                /\ voters' = vs2
-                /\ accepted' = TRUE
-         ELSE LET k == IF Len(vs2) > 1 THEN idx ELSE 0 IN
-                /\ k \in 0..(Len(vs2) - 1)
-                /\ proposer' = vs2[k + 1]
-                /\ voters' = SwapProposer(vs2, k)
-                /\ accepted' = FALSE
+      THEN [Same EXCEPT !.halted = TRUE]            \* "delete too many voters": EndBlocker fails
+    ELSE IF removedP
+      THEN [base EXCEPT !.proposer = vs2[1], !.voters = Tail(vs2), !.accepted = FALSE]
+    ELSE IF Len(vs2) = 0
+      THEN [base EXCEPT !.voters = vs2, !.accepted = TRUE]
+    ELSE LET k == IF Len(vs2) > 1 THEN idx ELSE 0 IN
+      IF k \notin 0..(Len(vs2) - 1) THEN [Same EXCEPT !.halted = TRUE]     \* impossible index (never chosen)
+      ELSE [base EXCEPT !.proposer = vs2[k + 1], !.voters = SwapProposer(vs2, k), !.accepted = FALSE]
+
+\* number of voters the election (if any) draws the new proposer from
+ElectorateSize(now) ==
+  IF ~ElectionDue(now) THEN 0
+  ELSE Len(SeqMinus(voters \o onQ, Range(offQ)))
+
+EndBlock(now, idx) ==
+  LET r == EndResult(now, idx) IN
+  /\ proposer' = r.proposer /\ voters' = r.voters /\ epoch' = r.epoch /\ lastElected' = r.lastElected
+  /\ accepted' = r.accepted /\ rec' = r.rec /\ onQ' = r.onQ /\ offQ' = r.offQ /\ halted' = r.halted
+  /\ UNCHANGED << seq, randao, pubkeys, accounts >>
 
 (***************************************************************************)
 (* Export ; InitGenesis.  The queues are rebuilt from the voter statuses in *)
